@@ -242,6 +242,17 @@ def run(ck, m):
                   f"UrwidImageScreen.{st.name} performs terminal I/O but is not decorated with @lock_tty", stmt=f"UrwidImageScreen.{st.name}")
     ck.expect(n5 >= 4, f"expected >= 4 I/O overrides in UrwidImageScreen, found {n5}")
 
+    # the lock is migrated exactly when it still is the thread-only lock: decided from the lock object itself (state that survives
+    # re-import in a spawn/forkserver child and is adopted together with the lock), never from a separate flag
+    from tiv.sem import econds as _econds
+    mk = [c for c in body_walk(start) if isinstance(c, ast.Call) and (call_name(c) or "").split(".")[-1] in ("mp_RLock", "RLock", "Array")]
+    ck.expect(len(mk) >= 2, f"_process_start_wrapper: creation of the multiprocessing lock / array not found ({len(mk)})")
+    for c in mk:
+        cds = _econds(start, c)
+        ck.ob("L4", enclosing_stmt(c), any(x.startswith("isinstance(_tty_lock, _rlock_type)") or x.startswith("isinstance(_cell_size_lock, _rlock_type)") for x in cds),
+              f"`{short(c, 40)}` (migration to a multiprocessing primitive) is not decided by `isinstance(<lock>, _rlock_type)` (conditions: {sorted(cds)[:3]}): a flag kept beside the lock is lost when a "
+              "spawn/forkserver child re-imports the module and adopts only the lock, so the child would create a second, unrelated lock for its own children", stmt=f"_process_start_wrapper: {short(c, 30)} iff the lock is still thread-only")
+
     from rules.common import rule_memo_safety
     rule_memo_safety(ck, m, "MEMO", "C14")
 
